@@ -67,6 +67,10 @@ type Worker struct {
 	absFloatText     bool
 	loopBound        int
 	absFloatArith    bool
+	splitDiv         bool
+	curFrame         *frame
+	curInstr         ssa.Instruction
+	whereLog         []string
 	opaqueParseFloat bool
 	depth            int
 
@@ -476,6 +480,9 @@ func (fr *frame) run() {
 		}
 		jumped := false
 		for _, in := range instrs[np:] {
+			if trailLog != nil {
+				w.curFrame, w.curInstr = fr, in
+			}
 			switch fr.visit(in) {
 			case kReturn:
 				return
@@ -809,6 +816,9 @@ func (fr *frame) load(t types.Type, addr Value, pos token.Pos) Value {
 // into classes of equal (concrete) values and the path forks over classes,
 // not over indices; the index itself stays symbolic.
 func (w *Worker) loadByClass(p *SymPtr) Value {
+	if v, ok := w.loadStrTable(p); ok {
+		return v
+	}
 	type class struct {
 		rep  Value
 		idxs []int
@@ -1157,3 +1167,73 @@ func (w *Worker) initAllowed(path string) bool {
 }
 
 var _ = big.NewInt
+
+// loadStrTable reads cells[idx] from a table of concrete strings without
+// forking over the entries: the path forks over the distinct *lengths* only,
+// and inside one length class every byte is an ite-chain over the index.
+func (w *Worker) loadStrTable(p *SymPtr) (Value, bool) {
+	strs := make([]string, len(p.cells))
+	for i, c := range p.cells {
+		s, ok := c.(Str)
+		if !ok {
+			return nil, false
+		}
+		cs, ok := s.concrete()
+		if !ok {
+			return nil, false
+		}
+		strs[i] = cs
+	}
+	byLen := map[int][]int{}
+	var lens []int
+	for i, s := range strs {
+		if _, ok := byLen[len(s)]; !ok {
+			lens = append(lens, len(s))
+		}
+		byLen[len(s)] = append(byLen[len(s)], i)
+	}
+	chosen := lens[len(lens)-1]
+	for _, l := range lens[:len(lens)-1] {
+		cond := falseT
+		for _, i := range byLen[l] {
+			cond = tOr(cond, tEq(p.idx, intConst(int64(i))))
+		}
+		if w.path.Branch(cond) {
+			chosen = l
+			break
+		}
+	}
+	idxs := byLen[chosen]
+	out := make([]Value, chosen)
+	for k := 0; k < chosen; k++ {
+		var r *Term
+		same := true
+		for j := len(idxs) - 1; j >= 0; j-- {
+			c := intConst(int64(strs[idxs[j]][k]))
+			if strs[idxs[j]][k] != strs[idxs[0]][k] {
+				same = false
+			}
+			if r == nil {
+				r = c
+			} else {
+				r = tIte(tEq(p.idx, intConst(int64(idxs[j]))), c, r)
+			}
+		}
+		if same {
+			out[k] = int64(strs[idxs[0]][k])
+		} else {
+			lo, hi := 255, 0
+			for _, j := range idxs {
+				if b := int(strs[j][k]); b < lo {
+					lo = b
+				}
+				if b := int(strs[j][k]); b > hi {
+					hi = b
+				}
+			}
+			r.lo, r.hi = big.NewInt(int64(lo)), big.NewInt(int64(hi))
+			out[k] = r
+		}
+	}
+	return Str{b: out}, true
+}
